@@ -32,6 +32,8 @@ type Env struct {
 	// HonourCancel: resolvers return ctx.Err() when they observe a cancelled context.
 	HonourCancel bool
 	Panics       int
+	// Intercept: the fault-injecting field interceptor is active (C04)
+	Intercept bool
 	// Sub scripts for subscription fields: list of steps per path.
 	SubScript map[string][]string
 }
@@ -235,8 +237,9 @@ func (e *Env) object(pt reflect.Type, path string) reflect.Value {
 			f.SetBool(true)
 		case reflect.Ptr:
 			if f.Type().Elem().Kind() == reflect.String {
-				v := LeafString(path, name)
-				f.Set(reflect.ValueOf(&v))
+				pv := reflect.New(f.Type().Elem())
+				pv.Elem().SetString(LeafString(path, name))
+				f.Set(pv)
 			}
 		}
 	}
